@@ -155,6 +155,13 @@ class SymExec:
         if name is None:
             if isinstance(f, ast.Attribute) and isinstance(f.value, ast.Call) and isinstance(f.value.func, ast.Name) and f.value.func.id == 'super':
                 name = f'super().{f.attr}'
+            elif isinstance(f, ast.Attribute) and not isinstance(f.value, ast.Name):
+                # a method of a computed value: the receiver is the first argument
+                recv = self.ev(f.value)
+                args0 = tuple(self.ev(a) for a in k.args)
+                kwargs0 = tuple((kw.arg or '**', self.ev(kw.value)) for kw in k.keywords)
+                self.log('call', f'.{f.attr}', (recv,) + args0, kwargs0, k)
+                return ('call', f'.{f.attr}', (recv,) + args0, kwargs0)
             elif isinstance(f, ast.Attribute):
                 name = f'<{" ".join(ast.unparse(f.value).split())[:40]}>.{f.attr}'
             else:
@@ -236,6 +243,8 @@ class SymExec:
                 old = self.ev(st.target)
                 new = (op, frozenset([old, v])) if op else (type(st.op).__name__.lower(), old, v)
                 self.assign(st.target, new, st)
+                if isinstance(st.target, ast.Name):
+                    self.log('assign', st.target.id, (new,), (), st)
             elif isinstance(st, ast.Return):
                 v = self.ev(st.value)
                 self.returns.append((v, tuple(self.guards)))
